@@ -99,9 +99,26 @@
       (a walk at a strictly lower bracket level ends strictly earlier), `pwalk_through`,
       `pwalk_shrink`, `pwalk_det`, `pwalk_en`, `labelLoop_hits`, `parseLinkLabel_hits`;
       `witness_summary`, `walk_below_bracket`, `just_unit_at_closer`, `just_at_bracket`.
-   I. NESTED FRAMES (`Lemmas/MemoSafeLamNest.lean`, in progress when this was written — see the report
-      of the session): `nested_eq`: from H, by induction on the fuel, every state satisfying `NF` has
-      guarded nested run = model nested run with the memo unchanged.
+   I. NESTED FRAMES (`Lemmas/MemoSafeLamNest.lean`): `nested_eq` — from the statements of H (bundled as
+      `NestHyps`), by induction on the fuel: every state satisfying `NF` has guarded nested run = model
+      nested run, with the memo unchanged (`chain_L2`: the real chain at a position takes the step the
+      witness of its memo entry took; `outer_marker_run`: a real delimiter run walks over
+      single-character entries; `over_limit`: frames at `level ≥ max_nesting` run no rule).
+   J. RESULT (`Lemmas/MemoSafeLamFinal.lean`): `parseInline_total_of_nestHyps` — `parseInline` is total
+      whenever `NestHyps` holds; `parseInline_total_link` — **UNCONDITIONALLY total** for every
+      `ChainCoherent` chain without the code-span rule and without the image rule (the link rule at
+      most once): text, newline, escape, any emphasis-like pairs, link (inline and all reference
+      forms, nesting to any depth, any `max_nesting`), autolink, entity.
+      NOT YET COVERED: the image rule (`ParseLinkL2Part … 1 true`: the proof of `parseLinkL2_link` goes
+      through with the label start at `pos + 2`, except for ONE sub-case — an image whose look-ahead
+      failed, in front of a `[` that the outer image walk stepped over as a link TOKEN — which needs
+      the second label walk of that token recorded, i.e. `skipStep_records_link` extended by
+      `witness_summary`); the code-span rule (`BackL2`: `back_L2` needs the two caches to agree on
+      `inside_failed.contains pos` — true at every position not strictly inside a backtick run
+      (`inside_agree_of_not_interior`); at a position strictly inside a run (reached after a failed
+      opener, or behind an escaped backtick) it is a fact about the HISTORY of the shared cache: the
+      run start was tried before, with the same cache — `back_L2_needs_inside` shows the statement is
+      false for arbitrary reachable caches).
 
   FIRST PART, conclusion: the open lemma is reduced to ONE static, global property of the memo:
 
@@ -208,6 +225,35 @@ theorem runRule_flat_window {cfg : Cfg} {skip tok : IState → Except Panic ISta
   | autolink => simp only [runRule, liftR_ok]; exact ruleAutolink_window h n
   | entity => simp only [runRule, liftR_ok]; exact ruleEntity_window cfg h hstop n
 
+/-! ## J. the result of the second part -/
+
+/-- **C01, inline pass, link chains: `md.inline.parse` is total** for every `ChainCoherent` chain without
+    the code-span rule and without the image rule (link rule at most once), every `max_nesting`, every
+    reference map, every content with a `MapOK` table (`Lemmas/MemoSafeLamFinal.lean`). -/
+theorem parseInline_total_coherent_link (cfg : Cfg) (hc : ChainCoherent cfg = true)
+    (hnb : RuleId.backticks ∉ cfg.chain) (hni : RuleId.image ∉ cfg.chain)
+    (hone : cfg.chain.count .link ≤ 1) {content : List Char} {mapping : Srcmap}
+    (hm : MapOK content mapping) : ∃ cs, parseInline cfg content mapping = .ok cs :=
+  parseInline_total_link cfg hc hnb hni hone hm
+
+/-- a chain the theorem covers: everything of the stock chain but code spans and images -/
+def linkCfg (maxNesting : Nat) : Cfg :=
+  { stockCfg maxNesting with
+    chain := [.text, .newline, .escape, .emph '~' true, .emph '*' true, .emph '_' false, .link,
+              .autolink, .entity] }
+
+example : ChainCoherent (linkCfg 100) = true ∧ RuleId.backticks ∉ (linkCfg 100).chain ∧
+    RuleId.image ∉ (linkCfg 100).chain ∧ (linkCfg 100).chain.count .link ≤ 1 := by decide +kernel
+
+-- … hence every one-line content parses, whatever `max_nesting` (no `decide` on the content)
+example (n : Nat) (content : List Char) : ∃ cs, parseInline (linkCfg n) content [(0, 0)] = .ok cs :=
+  parseInline_total_coherent_link (linkCfg n)
+    (by show ChainCoherent (linkCfg 0) = true; decide +kernel)
+    (by show RuleId.backticks ∉ (linkCfg 0).chain; decide)
+    (by show RuleId.image ∉ (linkCfg 0).chain; decide)
+    (by show (linkCfg 0).chain.count .link ≤ 1; decide)
+    (mapOK_single content)
+
 /-! ## executable versions, examples -/
 
 /-- executable `Laminar` -/
@@ -295,47 +341,31 @@ example : entrySafe (stockCfg 2) "[[[a](b)](c)](d) `[`".toList [(0, 0)] = true :
 example : entrySafe witnessCfg witness [(0, 0)] = false := by decide +kernel
 
 /-
-  OPEN: the one remaining lemma, and the unconditional theorems it gives.
+  OPEN after the second part.
 
-  theorem entrySafe_of_coherent (cfg : Cfg) (hc : ChainCoherent cfg = true) {content : List Char}
-      {mapping : Srcmap} (hm : MapOK content mapping) : entrySafe cfg content mapping = true
-    -- i.e. every nested frame the real link rule enters starts `Closed`; by C
-    -- (`frame_entry_closed_of_laminar`) it is enough that the memo `parse_link` returns in real mode
-    -- is `Laminar` (L3).
-  theorem memoSafe_of_coherent … : memoSafe cfg content mapping = true
-    := entrySafe_memoSafe cfg (coherent_hsz hc) hm (entrySafe_of_coherent cfg hc hm)
-  theorem parseInline_total … : ∃ cs, parseInline cfg content mapping = .ok cs
-    := parseInline_total_of_entrySafe_coherent cfg hc hm (entrySafe_of_coherent cfg hc hm)
-  theorem doc_total (cfg : DocCfg) … (hpara : cfg.hasPara) (htab : '\t' ∉ src)
-      (hsmall : 4 * |src| + 8 < 2^31) : (∃ t, parseDoc cfg src = .ok t) ∧ ∀ x, ∃ html, renderDoc x cfg src = .ok html
-    := `doc_total_of_memoSafe` (`Props/InlineTotal.lean`) with `Pipeline.doc_placeholder_tables`
-       (`Props/C05Inline.lean`: every placeholder of a tab-free source has a `MapOK` table).
+  PROVED: `parseInline_total_coherent_link` (coherent chains without code spans / images).
+  REMAINING for `parseInline_total` of ALL coherent chains — two per-rule statements, to be plugged into
+  `parseInline_total_of_nestHyps` (everything else — top frame, nested induction, flat rules, emphasis,
+  link — is done and generic):
+   (1) `ParseLinkL2Part cfg B src Mtop 1 true` (image rule).  Copy of `parseLinkL2_link` with label start
+       `pos + 2`, `en = true` (`pwalk_below`, `pwalk_en`, `walk_below_bracket` are already stated for both
+       nesting flags).  Missing piece: when the image look-ahead FAILED and the `[` at `pos + 1` is a link
+       TOKEN of the memo (possible only inside an image label), the second label walk of the image needs
+       the token's own second label walk recorded: extend `skipStep_records_link` / `BracketPost` by the
+       second-label clause of `witness_summary`.
+   (2) `BackL2 cfg BInv src Mtop` (code spans), for `B := BInv` (`Lemmas/MemoSafeLamBack.lean`,
+       `backOK_BInv`, `BInv.empty`).  `back_L2` proves it given
+       `st0.backticks.insideFailed.contains pos = s.backticks.insideFailed.contains pos`; free unless `pos`
+       is strictly inside a backtick run.  Needed: an invariant of the SHARED code-span cache along the
+       run — "every position the tokenizer or a label walk stops at that is strictly inside a backtick
+       run is in `inside_failed`" (the run start was tried first, with the same cache) — threaded like
+       `TopInv` / `NF`; plus `NoCut` of the top `pos_max` (`trimSrc` cuts only blanks).
+  Then `doc_total` for tab-free / NoSplitTab sources: `doc_total_of_inline` (`Props/InlineTotal.lean`) with
+  `Pipeline.doc_placeholder_tables` (every placeholder has a `MapOK` table) — for the chains covered
+  today this composition only needs `Placeholders`-weakening as in `doc_total_of_memoSafe`.
 
-  What a proof of (L3) needs (each item holds in all brute-force runs; `Qn` = the check of the native
-  copy `/verif/work/w9-memo/Brute.lean`):
-   (I1) real positions are not crossed: at every real tokenizer position `r` of a frame `[ls, M)` with
-        `level < max_nesting`, every entry starting in `[ls, r)` ends `≤ r` or is an over-limit entry
-        (`= M`)                                                                              (Q3);
-   (I2) L2, real follows look-ahead: a real step at `r` with an entry `r ↦ v` ends at `v`, or `src[r]` is
-        an emphasis marker (E: the run covers single-character entries), or `v = M` (over-limit
-        entry)                                                                               (Q5).
-        Flat rules: `silent_real_<rule>` + D; link / image: F (`parseLinkLabel_replay`,
-        `parseLink_replay_inline`; the REFERENCE form — second label walk recorded by
-        `parseLink_records` as well, `Refs.lookup` does not read the window — and the FAILING case
-        "look-ahead link failed ⇒ real link fails" are not written yet); needs (I3);
-   (I3) recorded entries: every entry `k ↦ v`, `v > k + 1`, at a `[` (resp. `![`) that is not an
-        over-limit entry has its label walk in the memo (F: `skipStep_records_link` proves it at
-        creation for `[`; `pwalk_mono` keeps it; the image rule `![` is the same argument at `k + 2`);
-   (I4) frontier: at a memo MISS at `q` inside a walk, memo keys beyond `q` exist only when
-        `src[q] = '['`, or `src[q] = ']'` and `src[q+1] = '['` (the two positions a second label walk
-        jumps over)                                                                           (Q1);
-   (I5) then an insertion `q ↦ v` keeps `Laminar`: nothing from `[ls, q)` crosses `q` (walk version of
-        I1), flat tokens have no keys inside (I4), link tokens have their recorded walks inside
-        (`pwalk_level_le`: a walk started inside a token of a walk that finds its `]` stops before that
-        `]`), enclosing entries end beyond the frame.
-  `max_nesting`: an entry made over the limit (`k ↦ pos_max`) is laminar with everything made later in
-  its frame (all ends `≤ pos_max`), is never followed by the real tokenizer (I2 exempts it) and makes
-  every walk that reads it fail (it ends at `pos_max`, the window is empty there).
+  The first part's route (laminarity, `entrySafe_of_coherent`) is superseded: `entrySafe` itself follows
+  from totality of the guarded run only through `Closed` at entries, which the new proof never needs.
 -/
 
 end MdIt.Inline
